@@ -46,9 +46,9 @@ _rate = st.sampled_from([0.05, 0.25, 0.5, 1.0, 2.0])
 
 
 @st.composite
-def _case(draw):
+def _case(draw, variant=None):
     lin = draw(linear.lin_strategy(max_n=2))
-    variant = draw(st.sampled_from(["plain", "ia", "ia", "derived", "quad", "zerodiv"]))
+    variant = variant or draw(st.sampled_from(["plain", "ia", "ia", "derived", "quad", "zerodiv"]))
     kind = draw(st.sampled_from(KINDS))
     if variant == "quad":
         lin["x0"][0] = max(1.0, lin["x0"][0])
@@ -104,6 +104,12 @@ def _case(draw):
 
 def strategy(tier: str):
     return _case()
+
+
+def strategies(tier: str):
+    # one budget per model variant: with ~30 cases a single strategy leaves a variant at 0-1 cases at some seeds
+    f = 1 if tier == "quick" else 3
+    return [(v, _case(v), n * f) for v, n in (("plain", 5), ("ia", 8), ("derived", 5), ("quad", 6), ("zerodiv", 6))]
 
 
 # ----------------------------------------------------------------------
